@@ -152,6 +152,7 @@ type monC10 struct {
 	BaseMonitor
 	pre    sheet
 	ledger map[string]*ledger
+	govSeen int
 }
 
 func (m *monC10) Name() string  { return "C10" }
@@ -267,6 +268,15 @@ func (m *monC10) AfterTx(w *World, tx *TxCtx) {
 		if kind == "str.cancel" {
 			delete(m.ledger, key)
 		}
+	}
+}
+
+// operations executed by governance in EndBlock are not seen transaction by transaction: the
+// per-stream ledgers are restarted whenever a proposal was executed
+func (m *monC10) AfterEnd(w *World, _ abci.ResponseEndBlock) {
+	if w.M.Gov.Passed+w.M.Gov.Failed != m.govSeen {
+		m.govSeen = w.M.Gov.Passed + w.M.Gov.Failed
+		m.ledger = map[string]*ledger{}
 	}
 }
 
